@@ -392,7 +392,11 @@ class Engine(object):
                 if cur != val:
                     self.report('index', 'entry_value_mismatch', {'key': repr(key), 'val': repr(val), 'cur': repr(cur),
                                                                   'obj': repr(obj)})
+        # while the session holds a key conflict that pony will report at flush (two objects with one key value,
+        # one of them loaded after the other took the value) the index can hold only one of them
+        has_dups = self.pending_dups or bool(self.working.dups())
         for obj in objects:
+            if has_dups: break
             if obj._status_ in DEL_STATUSES: continue
             ent = type(obj)
             for attr in ent._simple_keys_:
@@ -616,6 +620,9 @@ class Engine(object):
             self.report('conflict', 'duplicate_committed', {'where': where, 'dups': repr(d[:2])})
         self.c('commit.links_compared', sum(len(v) for v in exp_m2m.values()))
         self.c('commit.rows_compared', sum(len(v) for v in exp.values()))
+        if not ok:
+            # from here on the database and the reference disagree: later sessions of this history are not judged
+            self.diverged = 'database differs from the reference after %s' % where
         return ok
 
 
